@@ -197,6 +197,12 @@ Proof. reflexivity. Qed.
 Definition glookup (w : world) (k : str) : option value :=
   first_some [assoc k (w_args w); assoc k (w_matter w); assoc k (w_tg w); assoc k (w_eg w)].
 
+Definition merged (eg tg : dict) : dict :=
+  match tg with [] => eg | _ :: _ => dict_merge eg tg end.
+
+Definition glookup_m (w : world) (k : str) : option value :=
+  first_some [assoc k (w_args w); assoc k (w_matter w); assoc k (merged (w_eg w) (w_tg w))].
+
 Definition spec_lookup_g (gl : str -> option value) (a : astate) (k : str) : option value :=
   first_some (map (assoc k) (a_blocks a) ++
               [assoc k (a_locals a); gl k; builtin_get k; assoc k (a_counters a)]).
@@ -229,7 +235,9 @@ Definition Rg (w : world) (gl : str -> option value) (st : state) (a : astate) :
     /\ n_caller <= locals_a st
     /\ locals_a st < counters_a st
     /\ counters_a st < length (store_of st)
-    /\ Forall (fun b => counters_a st < b /\ b < length (store_of st)) bl.
+    /\ Forall (fun b => counters_a st < b /\ b < length (store_of st)) bl
+    /\ (forall k, mget (store_of st) (root_r st) k = glookup_m w k)
+    /\ (forall x, In x (maddrs (root_r st)) -> x < locals_a st).
 
 Lemma Rg_lookup w gl st a k : Rg w gl st a -> st_lookup st k = spec_lookup_g gl a k.
 Proof.
@@ -264,7 +272,7 @@ Lemma Rg_write_locals w gl st a d : Rg w gl st a ->
   Rg w gl (with_store st (write (store_of st) (locals_a st) d))
      {| a_blocks := a_blocks a; a_locals := d; a_counters := a_counters a |}.
 Proof.
-  intros (bl & Hsc & Hb & Hl & Hc & Hf & Hg & Hm & H4 & Hlc & Hcl & Hbl).
+  intros (bl & Hsc & Hb & Hl & Hc & Hf & Hg & Hm & H4 & Hlc & Hcl & Hbl & Hrl & Hrm).
   pose proof Hbl as Hbl'. rewrite Forall_forall in Hbl'.
   exists bl. unfold with_store. cbn [store_of scope locals_a counters_a globals_r a_blocks a_locals a_counters]. rewrite length_write.
   split; [exact Hsc|]. split.
@@ -276,14 +284,17 @@ Proof.
   split.
   { intro k. rewrite <- Hg. apply mget_frame. intros x Hx. apply read_write_other.
     specialize (Hm x Hx). lia. }
-  repeat (split; [assumption|]). exact Hbl.
+  split; [exact Hm|]. split; [exact H4|]. split; [exact Hlc|]. split; [exact Hcl|]. split; [exact Hbl|].
+  split; [|exact Hrm].
+  intro k. rewrite <- Hrl. apply mget_frame. intros x Hx. apply read_write_other.
+  specialize (Hrm x Hx). lia.
 Qed.
 
 Lemma Rg_write_counters w gl st a d : Rg w gl st a ->
   Rg w gl (with_store st (write (store_of st) (counters_a st) d))
      {| a_blocks := a_blocks a; a_locals := a_locals a; a_counters := d |}.
 Proof.
-  intros (bl & Hsc & Hb & Hl & Hc & Hf & Hg & Hm & H4 & Hlc & Hcl & Hbl).
+  intros (bl & Hsc & Hb & Hl & Hc & Hf & Hg & Hm & H4 & Hlc & Hcl & Hbl & Hrl & Hrm).
   pose proof Hbl as Hbl'. rewrite Forall_forall in Hbl'.
   exists bl. unfold with_store. cbn [store_of scope locals_a counters_a globals_r a_blocks a_locals a_counters]. rewrite length_write.
   split; [exact Hsc|]. split.
@@ -295,20 +306,24 @@ Proof.
   split.
   { intro k. rewrite <- Hg. apply mget_frame. intros x Hx. apply read_write_other.
     specialize (Hm x Hx). lia. }
-  repeat (split; [assumption|]). exact Hbl.
+  split; [exact Hm|]. split; [exact H4|]. split; [exact Hlc|]. split; [exact Hcl|]. split; [exact Hbl|].
+  split; [|exact Hrm].
+  intro k. rewrite <- Hrl. apply mget_frame. intros x Hx. apply read_write_other.
+  specialize (Hrm x Hx). lia.
 Qed.
 
 Lemma st_push_eq (st : state) ns :
   st_push st ns =
   {| store_of := store_of st ++ [ns]; scope := RDict (length (store_of st)) :: scope st;
-     locals_a := locals_a st; counters_a := counters_a st; globals_r := globals_r st |}.
+     locals_a := locals_a st; counters_a := counters_a st; globals_r := globals_r st;
+     root_r := root_r st |}.
 Proof. reflexivity. Qed.
 
 Lemma Rg_push w gl st a ns : Rg w gl st a ->
   Rg w gl (st_push st ns)
      {| a_blocks := ns :: a_blocks a; a_locals := a_locals a; a_counters := a_counters a |}.
 Proof.
-  intros (bl & Hsc & Hb & Hl & Hc & Hf & Hg & Hm & H4 & Hlc & Hcl & Hbl).
+  intros (bl & Hsc & Hb & Hl & Hc & Hf & Hg & Hm & H4 & Hlc & Hcl & Hbl & Hrl & Hrm).
   pose proof Hbl as Hbl'. rewrite Forall_forall in Hbl'.
   rewrite st_push_eq. exists (length (store_of st) :: bl).
   cbn [store_of scope locals_a counters_a globals_r map a_blocks a_locals a_counters]. rewrite app_length. cbn [length].
@@ -322,8 +337,10 @@ Proof.
   { intro k. rewrite <- Hg. apply mget_frame. intros x Hx. apply read_app_lt.
     specialize (Hm x Hx). lia. }
   split; [exact Hm|]. split; [exact H4|]. split; [exact Hlc|]. split; [lia|].
-  constructor; [lia|].
-  eapply Forall_impl; [|exact Hbl]. simpl. intros b Hb0. lia.
+  split; [constructor; [lia|]; eapply Forall_impl; [|exact Hbl]; simpl; intros b Hb0; lia|].
+  split; [|exact Hrm].
+  intro k. rewrite <- Hrl. apply mget_frame. intros x Hx. apply read_app_lt.
+  specialize (Hrm x Hx). lia.
 Qed.
 
 Lemma Rg_pop w gl st a ns bs : Rg w gl st a -> a_blocks a = ns :: bs ->
@@ -331,12 +348,12 @@ Lemma Rg_pop w gl st a ns bs : Rg w gl st a -> a_blocks a = ns :: bs ->
     /\ Rg w gl (with_scope st c')
           {| a_blocks := bs; a_locals := a_locals a; a_counters := a_counters a |}.
 Proof.
-  intros (bl & Hsc & Hb & Hl & Hc & Hf & Hg & Hm & H4 & Hlc & Hcl & Hbl) Ha.
+  intros (bl & Hsc & Hb & Hl & Hc & Hf & Hg & Hm & H4 & Hlc & Hcl & Hbl & Hrl & Hrm) Ha.
   destruct bl as [|b bl]; [rewrite Ha in Hb; discriminate|].
   rewrite Hsc. simpl. eexists. eexists. split; [reflexivity|].
   exists bl. simpl. rewrite Ha in Hb. simpl in Hb. inversion Hb; subst.
   split; [reflexivity|]. split; [reflexivity|].
-  repeat (split; [assumption|]). inversion Hbl; assumption.
+  repeat (split; [assumption|]). split; [inversion Hbl; assumption|]. split; assumption.
 Qed.
 
 (** * Unfolding [exec] over a block *)
@@ -489,9 +506,6 @@ Proof.
   - split; [apply ext_refl|]. split; [exact Ha|exact E].
 Qed.
 
-Definition merged (eg tg : dict) : dict :=
-  match tg with [] => eg | _ :: _ => dict_merge eg tg end.
-
 Lemma env_make_globals_eq (s : store) eg tg :
   env_make_globals s eg tg = (s ++ [merged (read s eg) (read s tg)], length s).
 Proof. unfold env_make_globals, merged, alloc. destruct (read s tg); reflexivity. Qed.
@@ -506,40 +520,56 @@ Definition empty_astate : astate := {| a_blocks := []; a_locals := []; a_counter
 
 Ltac len := rewrite ?app_length; cbn [length]; unfold n_caller in *; lia.
 
-Lemma ctx_init_Rg w gl (s : store) g :
+Lemma ctx_init_Rg w gl (s : store) g root :
   firstn n_caller s = caller_store w ->
   (forall x, In x (maddrs g) -> x < length s) ->
   (forall k, mget s g k = gl k) ->
-  Rg w gl (ctx_init s g) empty_astate.
+  match root with
+  | Some r => (forall x, In x (maddrs r) -> x < length s) /\ (forall k, mget s r k = glookup_m w k)
+  | None => forall k, gl k = glookup_m w k
+  end ->
+  Rg w gl (ctx_init s g root) empty_astate.
 Proof.
-  intros Hf Hm Hg.
+  intros Hf Hm Hg Hroot.
   assert (H4 : n_caller <= length s) by (eapply firstn_len_ge; [exact Hf|reflexivity]).
   unfold ctx_init, alloc. destruct (Nat.eqb (mlen s g) 0) eqn:E.
   - apply Nat.eqb_eq in E. exists (@nil addr).
-    cbn [store_of scope locals_a counters_a globals_r a_blocks a_locals a_counters map app empty_astate].
+    cbn [store_of scope locals_a counters_a globals_r root_r a_blocks a_locals a_counters map app empty_astate].
+    assert (G0 : forall k, mget (((s ++ [[]]) ++ [[]]) ++ [[]]) (RDict (length s)) k = gl k).
+    { intro k. cbn [mget]. rewrite !read_app_lt by len.
+      rewrite read_app_new. simpl. rewrite <- Hg. symmetry. apply mlen_zero_none. exact E. }
     split; [reflexivity|]. split; [reflexivity|].
     split. { rewrite read_app_lt by len. apply read_app_new. }
     split. { apply read_app_new. }
     split. { rewrite !firstn_app_le by len. exact Hf. }
-    split. { intro k. cbn [mget]. rewrite !read_app_lt by len.
-             rewrite read_app_new. simpl. rewrite <- Hg. symmetry.
-             apply mlen_zero_none. exact E. }
+    split; [exact G0|].
     split. { simpl. intros x [<-|[]]. len. }
-    split; [len|]. split; [len|]. split; [len|]. constructor.
+    split; [len|]. split; [len|]. split; [len|]. split; [constructor|].
+    destruct root as [r|].
+    + destruct Hroot as [Hr1 Hr2]. split.
+      * intro k. rewrite <- Hr2. apply mget_frame. intros x Hx. specialize (Hr1 x Hx).
+        rewrite !read_app_lt by len. reflexivity.
+      * intros x Hx. specialize (Hr1 x Hx). len.
+    + split; [intro k; rewrite G0; apply Hroot|]. simpl. intros x [<-|[]]. len.
   - exists (@nil addr).
-    cbn [store_of scope locals_a counters_a globals_r a_blocks a_locals a_counters map app empty_astate].
+    cbn [store_of scope locals_a counters_a globals_r root_r a_blocks a_locals a_counters map app empty_astate].
+    assert (G0 : forall k, mget ((s ++ [[]]) ++ [[]]) g k = gl k).
+    { intro k. rewrite <- Hg. apply mget_frame. intros x Hx. specialize (Hm x Hx).
+      rewrite !read_app_lt by len. reflexivity. }
     split; [reflexivity|]. split; [reflexivity|].
     split. { rewrite read_app_lt by len. apply read_app_new. }
     split. { apply read_app_new. }
     split. { rewrite !firstn_app_le by len. exact Hf. }
-    split. { intro k. rewrite <- Hg. apply mget_frame. intros x Hx. specialize (Hm x Hx).
-             rewrite !read_app_lt by len. reflexivity. }
+    split; [exact G0|].
     split; [exact Hm|].
-    split; [len|]. split; [len|]. split; [len|]. constructor.
+    split; [len|]. split; [len|]. split; [len|]. split; [constructor|].
+    destruct root as [r|].
+    + destruct Hroot as [Hr1 Hr2]. split.
+      * intro k. rewrite <- Hr2. apply mget_frame. intros x Hx. specialize (Hr1 x Hx).
+        rewrite !read_app_lt by len. reflexivity.
+      * intros x Hx. specialize (Hr1 x Hx). len.
+    + split; [intro k; rewrite G0; apply Hroot|]. exact Hm.
 Qed.
-
-Definition glookup_m (w : world) (k : str) : option value :=
-  first_some [assoc k (w_args w); assoc k (w_matter w); assoc k (merged (w_eg w) (w_tg w))].
 
 Lemma glookup_m_eq w k : NoDup (keys (w_tg w)) -> glookup_m w k = glookup w k.
 Proof.
@@ -581,6 +611,7 @@ Proof.
     unfold s0, caller_store, read. simpl.
     destruct (assoc k (w_args w)); auto; destruct (assoc k (w_matter w)); auto;
     destruct (assoc k (merged (w_eg w) (w_tg w))); auto.
+  - intro k. reflexivity.
 Qed.
 
 Lemma build_base_Rg w : NoDup (keys (w_tg w)) -> Rg w (glookup w) (build_base w) empty_astate.
@@ -811,7 +842,8 @@ Proof. split; reflexivity. Qed.
 
 Definition frame_eq (st st' : state) : Prop :=
   scope st' = scope st /\ locals_a st' = locals_a st
-  /\ counters_a st' = counters_a st /\ globals_r st' = globals_r st.
+  /\ counters_a st' = counters_a st /\ globals_r st' = globals_r st
+  /\ root_r st' = root_r st.
 
 Definition bal_op lim (o : op) : Prop :=
   scoped o = true -> forall st, frame_eq st (state_of (exec lim o st)).
@@ -839,9 +871,9 @@ Proof.
   rewrite scoped_Extend in Hs.
   pose proof (exec_list_bal lim body IH Hs (st_push st ns)) as H2.
   destruct (exec_list lim body (st_push st ns)) as [[st2 tr] r]. prj.
-  destruct H2 as (H2s & H2l & H2c & H2g). rewrite st_push_eq in *.
-  cbn [scope locals_a counters_a globals_r] in *.
-  rewrite H2s. simpl. unfold frame_eq. cbn [scope locals_a counters_a globals_r with_scope].
+  destruct H2 as (H2s & H2l & H2c & H2g & H2r). rewrite st_push_eq in *.
+  cbn [scope locals_a counters_a globals_r root_r] in *.
+  rewrite H2s. simpl. unfold frame_eq. cbn [scope locals_a counters_a globals_r root_r with_scope].
   auto.
 Qed.
 
@@ -930,6 +962,41 @@ Qed.
 (** Inside a [render]ed partial a name resolves to the tag's arguments, then
     the caller's render arguments / matter / globals, then the built-ins; the
     parent's block scopes, locals and counters are not visible. *)
+Lemma Rg_copy w gl st a ns : Rg w gl st a ->
+  Rg w (fun k => first_some [assoc k ns; glookup_m w k]) (ctx_copy st ns) empty_astate.
+Proof.
+  intros (bl & Hsc & Hb & Hl & Hc & Hf & Hg & Hm & H4 & Hlc & Hcl & Hbl & Hrl & Hrm).
+  unfold ctx_copy, alloc. apply ctx_init_Rg.
+  - rewrite firstn_app_le by len. exact Hf.
+  - rewrite maddrs_chain. cbn [flat_map maddrs]. rewrite app_nil_r. rewrite app_length. simpl.
+    intros x [<-|Hx]; [lia|]. specialize (Hrm x Hx). lia.
+  - intro k0. rewrite mget_chain. cbn [map first_some].
+    change (mget (store_of st ++ [ns]) (RDict (length (store_of st))) k0)
+      with (assoc k0 (read (store_of st ++ [ns]) (length (store_of st)))).
+    rewrite read_app_new.
+    destruct (assoc k0 ns); [reflexivity|]. rewrite <- Hrl.
+    replace (mget (store_of st ++ [ns]) (root_r st) k0) with (mget (store_of st) (root_r st) k0).
+    + destruct (mget (store_of st) (root_r st) k0); reflexivity.
+    + symmetry. apply mget_frame. intros x Hx. apply read_app_lt. specialize (Hrm x Hx). lia.
+  - split.
+    + intros x Hx. specialize (Hrm x Hx). rewrite app_length. simpl. lia.
+    + intro k0. rewrite <- Hrl. apply mget_frame. intros x Hx. apply read_app_lt.
+      specialize (Hrm x Hx). lia.
+Qed.
+
+Lemma copy_lookup_gen w gl st a ns k : NoDup (keys (w_tg w)) -> Rg w gl st a ->
+  st_lookup (ctx_copy st ns) k =
+  first_some [assoc k ns;
+              assoc k (w_args w); assoc k (w_matter w); assoc k (w_tg w); assoc k (w_eg w);
+              builtin_get k].
+Proof.
+  intros ND HR. rewrite (Rg_lookup _ _ _ _ k (Rg_copy _ _ _ _ ns HR)).
+  unfold spec_lookup_g, empty_astate. rewrite (glookup_m_eq w k ND). unfold glookup. simpl.
+  destruct (assoc k ns); auto; destruct (assoc k (w_args w)); auto;
+  destruct (assoc k (w_matter w)); auto; destruct (assoc k (w_tg w)); auto;
+  destruct (assoc k (w_eg w)); auto; destruct (builtin_get k); auto.
+Qed.
+
 Theorem copy_lookup (L : layers) ns k :
   NoDup (keys (w_tg (l_world L))) ->
   st_lookup (ctx_copy (build L) ns) k =
@@ -937,30 +1004,26 @@ Theorem copy_lookup (L : layers) ns k :
               assoc k (w_args (l_world L)); assoc k (w_matter (l_world L));
               assoc k (w_tg (l_world L)); assoc k (w_eg (l_world L));
               builtin_get k].
+Proof. intro ND. eapply copy_lookup_gen; [exact ND|apply (build_Rg L ND)]. Qed.
+
+(** A render inside a render: the outer tag's arguments [ns1] and the outer
+    partial's block scope [b] are invisible too — every copy chains the ROOT
+    context's globals (context.py:78-83, the fix 0967af6). *)
+Theorem copy_copy_lookup (L : layers) ns1 b ns2 k :
+  NoDup (keys (w_tg (l_world L))) ->
+  st_lookup (ctx_copy (st_push (ctx_copy (build L) ns1) b) ns2) k =
+  first_some [assoc k ns2;
+              assoc k (w_args (l_world L)); assoc k (w_matter (l_world L));
+              assoc k (w_tg (l_world L)); assoc k (w_eg (l_world L));
+              builtin_get k].
 Proof.
-  intro ND. pose proof (build_Rg L ND) as HR.
-  destruct HR as (bl & Hsc & Hb & Hl & Hc & Hf & Hg & Hm & H4 & Hlc & Hcl & Hbl).
-  set (st := build L) in *. set (w := l_world L) in *.
-  assert (HR2 : Rg w (fun k => first_some [assoc k ns; glookup w k])
-                  (ctx_copy st ns) empty_astate).
-  { unfold ctx_copy, alloc. apply ctx_init_Rg.
-    - rewrite firstn_app_le by len. exact Hf.
-    - rewrite maddrs_chain. cbn [flat_map maddrs]. rewrite app_nil_r. rewrite app_length. simpl.
-      intros x [<-|Hx]; [lia|]. specialize (Hm x Hx). lia.
-    - intro k0. rewrite mget_chain. cbn [map first_some mget]. rewrite read_app_new.
-      destruct (assoc k0 ns); [reflexivity|]. rewrite <- Hg.
-      replace (mget (store_of st ++ [ns]) (globals_r st) k0) with (mget (store_of st) (globals_r st) k0).
-      + destruct (mget (store_of st) (globals_r st) k0); reflexivity.
-      + symmetry. apply mget_frame. intros x Hx. apply read_app_lt. specialize (Hm x Hx). lia. }
-  rewrite (Rg_lookup _ _ _ _ k HR2). unfold spec_lookup_g, empty_astate, glookup. simpl.
-  destruct (assoc k ns); auto; destruct (assoc k (w_args w)); auto;
-  destruct (assoc k (w_matter w)); auto; destruct (assoc k (w_tg w)); auto;
-  destruct (assoc k (w_eg w)); auto; destruct (builtin_get k); auto.
+  intro ND. eapply copy_lookup_gen; [exact ND|].
+  exact (Rg_push _ _ _ _ b (Rg_copy _ _ _ _ ns1 (build_Rg L ND))).
 Qed.
 
 Lemma Rg_scope_wf w gl st a : Rg w gl st a -> scope_wf st.
 Proof.
-  intros (bl & Hsc & _ & _ & _ & _ & _ & Hm & _ & Hlc & Hcl & Hbl) x Hx.
+  intros (bl & Hsc & _ & _ & _ & _ & _ & Hm & _ & Hlc & Hcl & Hbl & _) x Hx.
   rewrite maddrs_chain, Hsc, flat_map_app in Hx. apply in_app_or in Hx as [Hx|Hx].
   - rewrite Forall_forall in Hbl. apply in_flat_map in Hx as (m & Hm1 & Hm2).
     apply in_map_iff in Hm1 as (b & <- & Hb). simpl in Hm2. destruct Hm2 as [<-|[]].
